@@ -33,6 +33,8 @@ FIRST = {
     "r4_c14_b1_backtrace_in_internal_error": "MISSED (std caches `RUST_BACKTRACE` at its first use in the process; every worker's first call was a canonical, clean one, so nothing ever differed in-process or between workers)",
     "r4_c14_b2_capitalization_check_over_hashmap": "MISSED (never two badly capitalised *top-level* names in one text)",
     "r6_c03_b1_first_of_suffix_thread_local_cache": "MISSED by the C03 check, which judged only the canonical emission (the C14 check reported it: it is the round-1 thread-local FIRST cache again, submitted as a C03 change because the parser emitted after another grammar on the same thread misreports)",
+    "r7_c14_a1_parallel_chunks_by_cpu_count": "MISSED by the quick tier (the thorough tier found it): chunk boundaries that move with the CPU count change the reported conflict only when a boundary falls between the two items of the first conflict; the CPU seam existed but offered six values and too few big conflicting grammars",
+    "r7_c14_b1_comment_scan_alignment_dependent": "MISSED (every text was handed to generate from an identically aligned buffer, and comments were ASCII)",
     "r6_c03_a1_closure_dedup_key_aliases_eof": "MISSED (an integer key that aliases `(rule, dot, Eof)` with `(rule, dot+1, first declared terminal)`: the declaration order of terminals was never shuffled, and the repeated nonterminal of the 'same rule at two dot positions' pattern was never followed by a token in one alternative and by nothing in the other)",
     "r6_c14_a1_heap_address_in_lex_error": "MISSED (no text with an outer attribute whose brackets balance in number but not in kind)",
     "r6_c14_b1_heap_address_in_lex_error_again": "MISSED (the same mechanism, written independently by a second agent)",
